@@ -112,7 +112,7 @@ def step (d : D) (n : Nat) (ln : Line) : D × List String :=
     ({ d with st := delRecursive d.st (cleanSegs name), spec := specDelete d.spec name, lastMut := "del" }, diff n ln ["ok"] ++ ["COV del"])
   | "bdel" =>
     let names := a.map tokBytes
-    let st' := names.foldl (fun s nm => delExact s (cleanSegs nm)) d.st
+    let st' := names.foldl (fun s nm => delBatchName s (cleanSegs nm)) d.st
     let spec' := names.foldl specDelete d.spec
     ({ d with st := st', spec := spec', lastMut := "bdel" }, diff n ln ["ok"] ++ ["COV bdel"])
   | "ls" =>
